@@ -141,11 +141,10 @@ where
 
         self.container.pop().expect("must be non-empty");
 
-        // We did some work if we get here; check if we reached
-        // an empty state.
-        if self.is_empty() {
-            self.clear();
-        }
+        // We did some work if we get here; restore the representation
+        // invariant (empty deques are clean, and at most half the
+        // container is a consumed prefix).
+        self.maybe_slide();
 
         self.check_rep();
         Some(ret)
